@@ -21,6 +21,7 @@ PY
 )
   git -C /repo apply "/verif/$d/patch.diff" || { echo "$n: patch does not apply"; bad=$((bad+1)); continue; }
   s=$(date +%s); out=$(./check $id quick 2>&1); rc=$?; e=$(date +%s)
+  git -C /repo diff --quiet && echo "$n: WARNING /repo no longer carried the patch after the check (something reverted it): result void"
   git -C /repo checkout -- .
   if [ $rc -eq 1 ]; then ok=$((ok+1)); r=caught; else bad=$((bad+1)); r="NOT-CAUGHT(rc=$rc)"; fi
   echo "$n $id $r $((e-s))s $(echo "$out" | grep -a -E '^VIOLATION|^INCONCLUSIVE' | head -1 | cut -c1-120)"
